@@ -675,7 +675,7 @@ def mkEnv (ks : List Kind) (widths : List Nat) (pre : Preparse.Result) : Env :=
     nl := fun c => if h : c < tab.size then tab[c] else hasTrailingLinebreak ka pre c }
 
 /-- fuel that is always enough (`C04_parser_terminates`): `rankBound` nested calls per syntax token -/
-def rankBound : Nat := 48
+def rankBound : Nat := 22
 def fuelBound (nSyntax : Nat) : Nat := rankBound * (nSyntax + 1) + 1
 
 /-- `parse_cst(tokens, &preparse(tokens))` on kinds and lengths -/
